@@ -110,6 +110,12 @@ def run(ctx):
         S2 = e1suite.Suite(ctx, agg.oracles, profile='tiny'); S2.nk = progs[0].nk
         S2.post = lambda res, refs_, recs, finals, marks, r, cfg, feat, files, what: oracle(ctx, res, refs_, recs, marks, r, cfg, feat, files, what, epochs)
         flags = rnd.choice([(), (), ('-D',)])
+        first_start = script.index('start')
+        late = ('cbadd' in script) or ('add:' in script[first_start:])
+        if flags and late:
+            # known finding: a taskpool under dynamic termination detection that is added while the context runs can be
+            # declared complete before its startup tasks ran; keyed separately so that it cannot mask anything else
+            S2.feat_fn = lambda feat, *a: 'ptg[dynamic-termdet+add-while-running]'
         rs = S2.do_program(i, seed, [(rnd.choice(['asan', 'asan', 'rel']), flags)], cfgs, progs=(progs, refs))
         for k, v in S2.stats.items(): agg.stats[k] = agg.stats.get(k, 0) + v
         agg.scheds |= S2.scheds; agg.cores |= S2.cores; agg.ranks |= S2.ranks; agg.backends |= S2.backends
